@@ -21,6 +21,7 @@ CONSTANTS K,        \* refinement depth bound
           Emit,     \* print every distinct state as a JSON line
           RootSel,  \* "all", one root kind, "unionholder", or "named" (roots listed in RootNames)
           RootNames,
+          FromMax,  \* start from the maximal instance (recursion budget 2) instead of the minimal one
           KU,       \* unknown keys below union positions are added to states of depth < KU
           KV        \* variants (deviations, dropped specials, unknown keys) are taken from states of depth < KV (0 = none)
 
@@ -100,6 +101,36 @@ MinV(t) ==
       [] t.kind = "literal" -> IF t.value.properties = <<>> THEN OAny(JObj(<<>>)) ELSE MinInst(ClsLitOf(t))
       [] t.kind = "stringLiteral" -> JStr(t.value)
 
+(***************************************************************************)
+(* Maximal instance: every property set (nested instances too, down to a   *)
+(* recursion budget), first non-null alternative, singleton containers.    *)
+(* Values near the maximal instance exercise hooks that probe for keys     *)
+(* while many other keys are present.                                      *)
+(***************************************************************************)
+RECURSIVE MaxV(_, _)
+MaxInst(c, fuel) ==
+    LET ps == PropsOf(c)
+        \* an omittable property is never given the value null (null ~ absent there, DESIGN 4.2)
+        keep == {i \in DOMAIN ps : ~Omittable(ps[i]) \/ Wire(MaxV(ps[i].type, fuel)).k # "null"}
+    IN
+    OInst(c, [n \in {ps[i].name : i \in keep} |->
+                 LET p == ps[CHOOSE i \in DOMAIN ps : ps[i].name = n] IN MaxV(p.type, fuel)])
+MaxV(t, fuel) ==
+    CASE t.kind = "cls" -> IF fuel = 0 THEN MinInst(t.cls) ELSE MaxInst(t.cls, fuel - 1)
+      [] t.kind = "reference" ->
+            IF t.name \in SName THEN (IF fuel = 0 THEN MinInst(ClsS(t.name)) ELSE MaxInst(ClsS(t.name), fuel - 1))
+            ELSE IF t.name \in EName THEN MinV(t)
+            ELSE IF t.name = "LSPAny" THEN OAny(AnyAlpha[5])          \* a nested object, never null (DESIGN 4.2)
+            ELSE MaxV(ADef[t.name].type, fuel)
+      [] t.kind = "array" -> OArr(<<MaxV(t.element, fuel)>>)
+      [] t.kind = "map" -> OMap("key" :> MaxV(t.value, fuel))
+      [] t.kind = "or" -> LET nn == SelectSeq(t.items, LAMBDA x : ~IsNullT(x)) IN
+                          IF nn = <<>> THEN JNull ELSE MaxV(nn[1], fuel)
+      [] t.kind = "tuple" -> OTup([i \in DOMAIN t.items |-> MaxV(t.items[i], fuel)])
+      [] t.kind = "literal" -> IF t.value.properties = <<>> THEN OAny(JObj(<<>>))
+                               ELSE (IF fuel = 0 THEN MinInst(ClsLitOf(t)) ELSE MaxInst(ClsLitOf(t), fuel - 1))
+      [] OTHER -> MinV(t)
+
 \* the minimal object of every alternative (unions and aliases of unions flattened)
 RECURSIVE AltMins(_)
 AltMins(t) == CASE t.kind = "or" -> UNION {AltMins(t.items[i]) : i \in DOMAIN t.items}
@@ -122,6 +153,9 @@ RefInst(o) ==
     UNION { IF ps[i].name \in DOMAIN o.p
             THEN { [o EXCEPT !.p[ps[i].name] = c] :
                    c \in {c \in Ref(o.p[ps[i].name], ps[i].type) : ~Omittable(ps[i]) \/ Wire(c).k # "null"} }
+                 \* ... or the property is unset again (only when walking down from the maximal instance)
+                 \cup (IF FromMax /\ ~Required(ps[i])
+                       THEN { [o EXCEPT !.p = [n \in DOMAIN o.p \ {ps[i].name} |-> o.p[n]]] } ELSE {})
             ELSE { [o EXCEPT !.p = (ps[i].name :> m) @@ o.p] :
                    m \in {m \in AltMins(ps[i].type) : ~Omittable(ps[i]) \/ Wire(m).k # "null"} }
           : i \in DOMAIN ps }
@@ -231,7 +265,7 @@ VARIABLES svRoot,   \* the root type of this behaviour
 vars == <<svRoot, svObj, svW, svVar, svDepth>>
 
 Init == /\ svRoot \in Roots
-        /\ svObj = MinV(RootType(svRoot))
+        /\ svObj = (IF FromMax THEN MaxV(RootType(svRoot), 2) ELSE MinV(RootType(svRoot)))
         /\ svW = Wire(svObj)
         /\ svVar = NoVar
         /\ svDepth = 0
